@@ -56,6 +56,24 @@ def theorem_status(prop, build_res):
             if ln <= line:
                 failing = name
         dep_fail = 'Cannot find a physical path' in out or 'Compiled library' in out or 'Unable to locate library' in out
+        if dep_fail:
+            # locate the lemma that broke in a Proofs/ file from the make output, and the theorem that uses it
+            mk = build_res.get('make_out', '')
+            for fm in re.finditer(r'File "\./(Proofs/\w+\.v)", line (\d+)', mk):
+                pf, pl = fm.group(1), int(fm.group(2))
+                try:
+                    psrc = open(os.path.join(COQ, pf)).read()
+                except OSError:
+                    continue
+                lem = None
+                for lm in re.finditer(r'^(Theorem|Lemma|Corollary)\s+(\w+)', psrc, re.M):
+                    if psrc[:lm.start()].count('\n') + 1 <= pl:
+                        lem = lm.group(2)
+                if lem:
+                    um = re.search(r'(Theorem|Lemma|Corollary)\s+(\w+)[^.]*?(?:\.|:)(?:(?!Qed).)*?exact\s+\(?@?' + re.escape(lem) + r'\b', src, re.S)
+                    failing = (um.group(2) if um else None) or ('%s (lemma %s in %s)' % (prop, lem, pf))
+                    out = 'lemma %s in %s no longer checks | ' % (lem, pf) + out
+                    break
         broken.append({'theorem': failing, 'why': ('a dependency does not compile: ' if dep_fail else 'does not check: ') + out.strip()[-600:]})
         discharged = sum(1 for name, ln in thms if failing and ln < dict(thms)[failing]) if failing else 0
     return len(thms), discharged, details, broken
